@@ -8,8 +8,10 @@ from ..info import Info
 TOL = 1e-9
 
 
-def build_wf(n, links, rem):
+def build_wf(n, links, rem, rev=False):
     sp = {"tasks": [{"name": F.tname(i), "work": float(rem[i])} for i in range(n)], "links": [list(l) for l in links]}
+    if rev:
+        sp["hash"] = list(range(n))[::-1]  # the sets inside the PERT passes are then iterated in the opposite order
     m = S.build(sp)
     return m
 
@@ -39,9 +41,9 @@ def sig_of(bad):
     return "C12:pert-values-wrong(%s)" % ",".join(kinds)
 
 
-def apply_history(n, links, rem0, hist):
+def apply_history(n, links, rem0, hist, rev=False):
     """Replay a history on fresh real objects; returns (model, t, bad-list after the last update)."""
-    m = build_wf(n, links, rem0)
+    m = build_wf(n, links, rem0, rev)
     wf = m.project.workflow
     wf.initialize()
     t = 0
@@ -65,20 +67,20 @@ def canon_wf(m, t):
 
 def work_hist(chunk):
     col = engines.Collector()
-    for n, links, rem0, depth in chunk:
+    for n, links, rem0, depth, rev in chunk:
         ops = [("p", i) for i in range(n)] + [("t",)]
         seen = set()
         frontier = collections.deque([()])
-        key = hash((n, repr(links), rem0))
+        key = hash((n, repr(links), rem0, rev))
         while frontier:
             hist = frontier.popleft()
-            m, t, bad = apply_history(n, links, rem0, hist)
+            m, t, bad = apply_history(n, links, rem0, hist, rev)
             col.evaluations += 1
             col.checks["c12.compare"] += 1
             c = canon_wf(m, t)
             col.transitions.add(hash((key, hist)))
             if bad:
-                col.violation({"property": "C12", "sig": sig_of(bad), "kind": "hist", "n": n, "links": links, "rem0": list(rem0), "hist": [list(o) for o in hist],
+                col.violation({"property": "C12", "sig": sig_of(bad), "kind": "hist", "n": n, "links": links, "rem0": list(rem0), "hist": [list(o) for o in hist], "rev": rev,
                                "detail": {"t": t, "mismatches": bad[:8]}})
             if c in seen:
                 continue
@@ -129,19 +131,30 @@ def hist_items(tier):
         for n in (1, 2, 3):
             for links in F.fs_dags(n):
                 for rem0 in itertools.product((0, 1, 2), repeat=n):
-                    out.append((n, links, rem0, 4))
+                    out.append((n, links, rem0, 4, False))
+                    if n == 3 and links:
+                        out.append((n, links, rem0, 2, True))
         for links in F.fs_dags(4):
             for rem0 in itertools.product((0, 1, 2), repeat=4):
                 if sum(rem0) % 2 == 0:
-                    out.append((4, links, rem0, 3))
+                    out.append((4, links, rem0, 3, False))
+                    out.append((4, links, rem0, 1, True))
     else:
         for n in (1, 2, 3, 4):
             for links in F.fs_dags(n):
                 for rem0 in itertools.product((0, 1, 2), repeat=n):
-                    out.append((n, links, rem0, 5 if n < 4 else 4))
+                    out.append((n, links, rem0, 5 if n < 4 else 4, False))
+                    if n >= 3 and links:
+                        out.append((n, links, rem0, 3, True))
         for links in F.fs_dags(5):
             for rem0 in itertools.product((0, 1), repeat=5):
-                out.append((5, links, rem0, 3))
+                out.append((5, links, rem0, 3, False))
+                out.append((5, links, rem0, 1, True))
+        # a few 6-node shapes in which a merge node is reached over paths with different numbers of edges
+        for extra in ([[0, 3, "FS"], [0, 1, "FS"], [1, 2, "FS"], [2, 3, "FS"], [3, 4, "FS"], [4, 5, "FS"]], [[0, 2, "FS"], [0, 1, "FS"], [1, 2, "FS"], [2, 3, "FS"], [2, 4, "FS"], [4, 5, "FS"]]):
+            for rem0 in itertools.product((1, 2), repeat=6):
+                for rev in (False, True):
+                    out.append((6, extra, rem0, 2, rev))
     return out
 
 
@@ -164,7 +177,7 @@ def run(tier, seed):
     meta = {
         "level": "model_checking",
         "rule": "breadth-first search over histories of progress(i) (remaining -= 1) and tick (t += 1), each followed by the real update_PERT_data(t), from a freshly "
-        "initialized real workflow, for every FS-only DAG on <=4 (thorough 5) nodes x every initial remaining vector over {0,1,2}; states de-duplicated on (remaining, stored "
+        "initialized real workflow, for every FS-only DAG on <=4 (thorough 5) nodes x every initial remaining vector over {0,1,2}, with the tasks' hash ranks in list order and (shallower) in reversed order so that the sets inside the passes are iterated both ways; states de-duplicated on (remaining, stored "
         "est/eft/lst/lft relative to t); after every update all values are compared with a longest-path CPM; plus the 'updated' phase of every step of FS-only simulations "
         "explored over absence answers; non-trivial = distinct states of DAGs with at least one link and positive work",
         "bounds": {"history_depth": "4 (n<=3), 3 (n=4)" if tier == "quick" else "5 (n<=3), 4 (n=4), 3 (n=5)", "dag_instances": len(hi), "sim_models": len(si), "H": H, "D": D},
@@ -175,6 +188,6 @@ def run(tier, seed):
 
 def replay(v):
     if v.get("kind") == "hist":
-        m, t, bad = apply_history(v["n"], [tuple(l) for l in v["links"]], tuple(v["rem0"]), tuple(tuple(o) for o in v["hist"]))
+        m, t, bad = apply_history(v["n"], [tuple(l) for l in v["links"]], tuple(v["rem0"]), tuple(tuple(o) for o in v["hist"]), bool(v.get("rev")))
         return [{"sig": sig_of(bad), "detail": {"t": t, "mismatches": bad[:8]}}] if bad else []
     return stepcheck.replay(v, [mon_c12])
